@@ -6,11 +6,13 @@ package composite
 // direct GetRelatedObjects calls share one customize.Manager.
 
 import (
+	"context"
 	"fmt"
 	"net/http"
 	"os"
 	"sort"
 	"strings"
+	"sync/atomic"
 	"testing"
 	"time"
 
@@ -61,6 +63,9 @@ var c15Related = []kidSpec{
 	{APIVersion: "apps.example.com/v1", Resource: "widgets", Kind: "Widget", Namespaced: true},
 	{APIVersion: "v1", Resource: "namespaces", Kind: "Namespace", Namespaced: false},
 }
+
+// panics caught inside informer handler goroutines (utilruntime.HandleCrash) during the current scenario
+var c15HandlerPanics int32
 
 // ---- hook transport ----
 
@@ -186,6 +191,13 @@ func c15Run(sc *c15Scenario) (*c15Rec, error) {
 	pns, _ := pmd["namespace"].(string)
 	pname, _ := pmd["name"].(string)
 	out := &c15Rec{Sc: sc}
+	atomic.StoreInt32(&c15HandlerPanics, 0)
+	hasNull := false
+	for _, f := range sc.Features {
+		if f == "null-rule" {
+			hasNull = true
+		}
+	}
 	for bi, bs := range sc.Builds {
 		if bs.BumpGeneration {
 			cur := w.srv.GetLive(sc.Ctl.ParentAPIVersion, sc.Ctl.ParentKind, pns, pname)
@@ -283,8 +295,15 @@ func c15Run(sc *c15Scenario) (*c15Rec, error) {
 		if sc.Wake && bi == len(sc.Builds)-1 && lastDone && lastRelated != nil {
 			out.Wakes = c15WakeProbe(w, b, key, lastRelated)
 		}
+		if hasNull {
+			// let the related informers deliver their initial add events to the real handlers
+			time.Sleep(20 * time.Millisecond)
+		}
 		b.close()
 		out.Builds = append(out.Builds, recs)
+	}
+	if n := atomic.LoadInt32(&c15HandlerPanics); n > 0 {
+		out.Wakes = append(out.Wakes, c15WakeRec{Obj: "informer-handler-panicked", Woken: false})
 	}
 	return out, nil
 }
@@ -633,12 +652,8 @@ func (g *c15Gen) rules(namespaced, hostile bool) ([]interface{}, []string) {
 	var feats []string
 	for i := 0; i < n; i++ {
 		ru, f := g.rule(namespaced, hostile)
-		if ru == nil && i > 0 {
-			// a null entry is only ever placed first: behind a valid rule it crashes the informer goroutine
-			out = append([]interface{}{nil}, out...)
-		} else {
-			out = append(out, ru)
-		}
+		// a null entry may sit anywhere: GetRelatedObjects refuses it, the event handler skips it
+		out = append(out, ru)
 		feats = append(feats, "rule-"+f)
 		if i > 0 {
 			if a, ok := out[len(out)-1].(J); ok {
@@ -841,6 +856,8 @@ func c15Corpus() []*c15Scenario {
 		mk("unknown-resource", nsd, []interface{}{J{"apiVersion": "v1", "resource": "gadgets"}})
 		mk("bad-operator", nsd, []interface{}{pods(J{"labelSelector": J{"matchExpressions": A{J{"key": "tier", "operator": "Near", "values": A{"x"}}}}})})
 		mk("null-rule", nsd, []interface{}{nil})
+		mk("null-rule-behind-valid-rule", nsd, []interface{}{pods(J{"names": A{"zz"}}), nil})
+		mk("null-rule-behind-matching-rule", nsd, []interface{}{pods(J{"labelSelector": J{}}), nil, pods(J{"names": A{"a"}})})
 		mk("no-rules", nsd, []interface{}{})
 	}
 	// generation change on one manager
@@ -894,7 +911,8 @@ func c15Generate(seed uint64, n int, adv bool) []*c15Scenario {
 	return out
 }
 
-// c15TagNullRule: the feature the known-findings file keys on
+// c15TagNullRule: the feature the known-findings file keys on (D22, repaired: a null entry is an
+// error now; a "panic" verdict on such a case is the regression)
 func c15TagNullRule(sc *c15Scenario) {
 	has := strings.Contains(sc.Hook.Raw, "[null")
 	scan := func(rs []interface{}) {
@@ -931,7 +949,11 @@ func TestVerif_C15(t *testing.T) {
 	// a panic inside an informer handler goroutine must not take the test binary down
 	prevCrash := utilruntime.ReallyCrash
 	utilruntime.ReallyCrash = false
-	defer func() { utilruntime.ReallyCrash = prevCrash }()
+	prevHandlers := utilruntime.PanicHandlers
+	utilruntime.PanicHandlers = []func(context.Context, interface{}){func(context.Context, interface{}) {
+		atomic.AddInt32(&c15HandlerPanics, 1)
+	}}
+	defer func() { utilruntime.ReallyCrash = prevCrash; utilruntime.PanicHandlers = prevHandlers }()
 	header := "From MC Require Import Check.C15_check.\nOpen Scope string_scope.\n"
 	w, err := vh.NewCaseWriter(env.OutDir, "C15", header, 25)
 	if err != nil {
